@@ -598,6 +598,30 @@ def _run(pid, P, tier, seed, scratch, t0):
         else:
             violations.append(f)
 
+    # the verifier could not run on this tree at all (e.g. the contracts no longer type-check against a changed
+    # representation): nothing is decided — but a concrete input that violates one of the property's clauses is still a violation
+    verifier_ran = all(((r['json'] or {}).get('verification-results') or {}).get('verified') is not None for r in runs[:2])
+    if not verifier_ran and not violations:
+        try:
+            import witness
+            tried = set()
+            for c in clauses:
+                fam_key = c['id']
+                gen = witness.GENERATED.get(fam_key)
+                ident = id(gen) if gen else (fam_key if fam_key in witness.CANNED else None)
+                if ident is None or ident in tried:
+                    continue
+                tried.add(ident)
+                pf = dict(id='(verifier could not run)|unverifiable|%s' % c['id'], fn=ann.scope_of(c['where']), kind='unverifiable', clause=c['id'], cfg='replay',
+                          message='the verifier could not run on this tree; a concrete input violates clause %s' % c['id'],
+                          rendered='\n'.join(i['message'] for i in inconclusive[:3]), repo_file=None, repo_line=None, expr='')
+                witness.find(pid, pf, REPO, scratch)
+                if pf.get('replayed'):
+                    violations.append(pf)
+                    break
+        except Exception as ex_:
+            inconclusive.append(dict(message='fallback witness search failed: %s' % ex_, rendered='', cfg='replay'))
+
     selftest = None
     if tier == 'thorough' and not os.environ.get('VERIF_NO_SELFTEST') and not violations:
         selftest = self_test(pid, scratch)
